@@ -111,12 +111,28 @@ HwSetFlag(b) ==
   /\ last' = <<"HwSetFlag", b>>
   /\ UNCHANGED <<objs, stack, init>>
 
+\* the BODY of a context writes the register itself (another library, inline assembly, fpu.set_mxcsr):
+\* it toggles a control field or raises a status flag.  Not part of Next (the configurations that explore
+\* it use NextBody); the statement "on exit the register holds exactly the value it had on entry" must
+\* hold whatever the body did.
+BodyWrites == {"fz", "daz", "rc", "flag"}
+BodyWrite(k) ==
+  /\ stack # <<>>
+  /\ mxcsr' = CASE k = "fz" -> [mxcsr EXCEPT !.fz = 1 - @]
+                 [] k = "daz" -> [mxcsr EXCEPT !.daz = 1 - @]
+                 [] k = "rc" -> [mxcsr EXCEPT !.rc = (@ + 1) % 4]
+                 [] k = "flag" -> [mxcsr EXCEPT !.flags = IF (@ \div 32) % 2 = 0 THEN @ + 32 ELSE @]
+  /\ last' = <<"BodyWrite", k>>
+  /\ UNCHANGED <<objs, stack, init>>
+
 Next == \/ \E c \in Objs, q \in ReqSet : Create(c, q)
         \/ \E c \in Objs : Enter(c) \/ EnterTwice(c)
         \/ \E exc \in BOOLEAN : Exit(exc)
         \/ HwSetFlag(1)
 
 Spec == Init /\ [][Next]_vars
+NextBody == Next \/ \E k \in BodyWrites : BodyWrite(k)
+SpecBody == Init /\ [][NextBody]_vars
 
 Bounded == TLCGet("level") <= MaxLevel
 
